@@ -992,6 +992,13 @@ func handleBinaryOperationExprOther(p *TableAliasStmtInfo, expr *ast.BinaryOpera
 			lDecorator := CreateColumnNameExprDecorator(lColumn, lRule, lIsAlias, p.GetRouteResult())
 			expr.L = lDecorator
 		}
+	} else if _, isValue := expr.L.(*driver.ValueExpr); !isValue {
+		// the column names below any other operand are rewritten, too
+		l, err := rewriteColumnNamesInExpr(p, expr.L)
+		if err != nil {
+			return false, nil, nil, fmt.Errorf("rewrite column names in BinaryOperationExpr.L error: %v", err)
+		}
+		expr.L = l
 	}
 	if rColumn, ok := expr.R.(*ast.ColumnNameExpr); ok {
 		rRule, rNeed, rIsAlias, rErr := NeedCreateColumnNameExprDecoratorInCondition(p, rColumn)
@@ -1002,6 +1009,12 @@ func handleBinaryOperationExprOther(p *TableAliasStmtInfo, expr *ast.BinaryOpera
 			rDecorator := CreateColumnNameExprDecorator(rColumn, rRule, rIsAlias, p.GetRouteResult())
 			expr.R = rDecorator
 		}
+	} else if _, isValue := expr.R.(*driver.ValueExpr); !isValue {
+		r, err := rewriteColumnNamesInExpr(p, expr.R)
+		if err != nil {
+			return false, nil, nil, fmt.Errorf("rewrite column names in BinaryOperationExpr.R error: %v", err)
+		}
+		expr.R = r
 	}
 	return false, nil, expr, nil
 }
